@@ -50,6 +50,8 @@ class MultiFit(FitBase):
         self._shared_error_dicts = dict()
         self._shared_error_nodes_initialized = False
         self._min_x_error = None
+        self._member_fixed_parameters = dict()
+        self._member_limited_parameters = dict()
         super(MultiFit, self).__init__(
             data=None,
             model_function=None,
@@ -58,6 +60,11 @@ class MultiFit(FitBase):
             minimizer_kwargs=minimizer_kwargs,
             dynamic_error_algorithm=dynamic_error_algorithm,
         )
+        # parameters that were fixed or limited in the individual fits stay fixed / limited in the combined fit
+        for _par_name, _par_value in self._member_fixed_parameters.items():
+            self.fix_parameter(_par_name, _par_value)
+        for _par_name, _par_limits in self._member_limited_parameters.items():
+            self.limit_parameter(_par_name, _par_limits[0], _par_limits[1])
 
     # -- private methods
 
@@ -141,6 +148,9 @@ class MultiFit(FitBase):
 
         _log_det_names = []
         for _i, _fit_i in enumerate(self._fits):
+            # the fitters of the individual fits are rebuilt: remember which parameters were fixed or limited there
+            self._member_fixed_parameters.update(_fit_i._fitter.fixed_parameters)
+            self._member_limited_parameters.update(_fit_i._fitter.limited_parameters)
             _fit_i._initialize_fitter()
 
             _x_data_node = _fit_i._nexus.get("x_data")
